@@ -193,8 +193,10 @@ def _configs(tier):
     else:
         for si in range(len(SHAPES)):
             shape = SHAPES[si]
-            for wi in (0, 1, 2):
+            for wi in ((0, 1, 2) if len(shape) < 3 else (1,)):                 # three streams: 16-bit only (wall-time budget)
                 for ob in range(1 << len(shape)):
+                    if len(shape) == 3 and ob not in (0, 2, 5, 7):
+                        continue
                     for host in (0, 1):
                         out.append(encode_cfg(si, wi, ob, 0, host))
                         if si in (0, 3) and wi == 1:
@@ -225,7 +227,7 @@ def obligations(tier, seed):
                 # streams with different frame sizes, two rounds: a per-stream block that is not the same number of FRAMES for every
                 # stream only shows from the second round on (seed C12c)
                 variants.append(("blk=1frame/2rounds", 2, [f"block == {fr}"]))
-            if not q:
+            if not q and ns == 2 and width == 2:
                 variants.append((f"blk={3 * fr + 1}", mb, [f"block == {3 * fr + 1}"]))
         for vname, mb, vpre in variants:
             pre = [f"cfg == {cfg}", f"mb == {mb}"] + vpre
